@@ -79,6 +79,10 @@ func (c *Conversation) checkVersion(message []byte) (err error) {
 // Based on the policy, commit to a version given a set of versions offered by the other peer unless the conversation has already committed to a version.
 func (c *Conversation) commitToVersionFrom(versions int) error {
 	if c.version != nil {
+		if c.ourCurrentKey == nil && len(c.ourKeys) > 0 {
+			// a conversation created with a fixed version has not chosen its long-term key yet
+			return c.setKeyMatchingVersion()
+		}
 		return nil
 	}
 
